@@ -52,4 +52,46 @@ theorem gen_widths : Gen.C19.formatWidths = Gen.C19.parseWidths ∧ Gen.C19.form
 theorem gen_date_args : Gen.C19.parseDateArgLetters = [121, 109, 100, 72, 77, 83, 115] ∧
     Gen.C19.parseNanosPerMilli = 1000000 ∧ Gen.C19.parseUnixNanoDivisor = 1000000 := by decide
 
+/-! ### the exported helpers are functions of their argument (no hidden state)
+
+  The CodeModel and the theorems of C19 describe each helper as a function of the instant.  That
+  is the code only if the exported wrappers of DateUtil.go pass straight through to the
+  DateTimeHelper methods and nothing in the package keeps state between calls.  Facts regenerated
+  from *every* non-test file of the package: -/
+
+/-- every exported wrapper that takes an instant or a date string is exactly
+    `return helper.<method>(arg)` of the method the model names (the `…Now` variants pass `Now()`);
+    the clock/delta functions are `other` (their effects are bounded by `gen_writers`) -/
+theorem gen_wrappers : Gen.C19.wrappers =
+    [("DateTime", "helper.datetime(#0)"), ("GetDateUnit", "helper.getDateUnit(#0)"),
+     ("GetDateUnitNow", "helper.getDateUnit(Now())"), ("GetDelta", "other"),
+     ("GetFiveMinUnit", "helper.getFiveMinUnit(#0)"), ("GetMinUnit", "helper.getMinUnit(#0)"),
+     ("GetYmdTime", "helper.getYmdTime(#0)"), ("HHMM", "helper.hhmm(#0)"), ("HHMMSS", "helper.hhmmss(#0)"),
+     ("Now", "other"), ("SetDelta", "other"), ("SetServerTime", "other"), ("SystemNow", "other"),
+     ("TimeStamp", "helper.timestamp(#0)"), ("TimeStampNow", "helper.timestamp(Now())"),
+     ("WeekDay", "helper.weekday(#0)"), ("YYYYMMDD", "helper.yyyymmdd(#0)"),
+     ("YmdNow", "helper.yyyymmdd(Now())"), ("Ymdhms", "helper.ymdhms(#0)")] := by decide
+
+/-- the package-level variables are the known ones: the helper and its registry, the clock
+    delta and sync-time state, the two constant tables — nothing a helper could cache in -/
+theorem gen_pkg_vars : Gen.C19.pkgVars =
+    ["SyncTimeMillis", "_table", "delta", "helper", "lastSyncTime", "lock", "mdayLen",
+     "syncTimeTicker", "wday"] := by decide
+
+/-- no struct of the package has grown a field -/
+theorem gen_struct_fields : Gen.C19.structFields =
+    [("DateFormat", ["formatStr", "dateStr", "date"]),
+     ("DateTimeHelper", ["BASE_TIME", "table", "dateTable", "LAST_DATE"]),
+     ("Day", ["yyyy", "mm", "dd", "date", "wday", "time"])] := by decide
+
+/-- the only functions that assign to a package-level variable or to a field of their receiver:
+    the delta setters, the sync-time clock, the helper registry, open() filling the tables, and
+    Parse's `this.date` (a recorded observation).  No formatting or unit method writes anything. -/
+theorem gen_writers : Gen.C19.writers =
+    [("DateFormat.Parse", ["recv.date"]), ("DateTimeHelper.open", ["recv.dateTable", "recv.table"]),
+     ("SetDelta", ["var:delta"]), ("SetServerTime", ["var:delta"]),
+     ("StartSyncTime", ["var:SyncTimeMillis", "var:lastSyncTime"]),
+     ("clock", ["var:SyncTimeMillis", "var:lastSyncTime", "var:syncTimeTicker"]),
+     ("getDateTimeHelper", ["var:_table"])] := by decide
+
 end C19Gen
